@@ -221,6 +221,11 @@ def run(tier):
     impl = core.run_impl('diff_lines', payload, shards=min(core.NPROC, max(1, len(payload) // 300)), timeout=1500)
     exh = core.run_impl('diff_lines', exh_payload, shards=nsh, timeout=3000)
     inc = core.run_impl('diff_lines', [{'includes': True}], shards=1)[0]
+    # the shipped consumer: unittestDeepEqual renders the Remove/Add blocks between Identical blocks as hunks
+    cons_pairs = [[a, b] for a, b, tag in cases if tag in ('corpus', 'text', 'odd') and isinstance(a, str) and isinstance(b, str)]
+    cons_pairs = cons_pairs[:300 if tier == 'quick' else 6000]
+    cons_batches = [cons_pairs[i:i + 100] for i in range(0, len(cons_pairs), 100)]
+    cons = core.run_impl('diff_lines', [{'consumer': b} for b in cons_batches], shards=min(core.NPROC, max(1, len(cons_batches))))
 
     # ---- direct oracle: explicit cases
     dist = {}
@@ -258,6 +263,15 @@ def run(tier):
     nlists = len(c20_oracle.lists_upto(list(ALPHABET), maxlen))
     if exh_count != nlists * nlists and not any(c.get('class') == 'exhaustive-shard-failed' for c in chk.oracle_fail):
         chk.oracle_fail.append({'class': 'exhaustive-family-incomplete', 'expected': nlists * nlists, 'got': exh_count})
+
+    # ---- direct oracle: the consumer of diffLines in unittest.bare
+    n_cons_fail_entries = 0
+    for batch, res in zip(cons_batches, cons):
+        if isinstance(res, dict) and isinstance(res.get('failures'), list):
+            n_cons_fail_entries += len(res['failures'])
+        for cls, detail in c20_oracle.check_consumer(batch, res)[:3]:
+            chk.oracle_fail.append({'class': cls, 'input': detail if isinstance(detail, dict) and 'left' in detail else {'batch_size': len(batch)},
+                                    'detail': detail, 'source': 'include <unittest.bare> ; unittestDeepEqual(left, right)'})
 
     # ---- direct oracle: the shipped includes
     inc_rows = inc.get('includes') if isinstance(inc, dict) else None
@@ -347,7 +361,7 @@ def run(tier):
     samples = [{'left': cases[i][0], 'right': cases[i][1], 'impl': impl[i]} for i in (0, 30, 700, len(cases) - 2500, len(cases) - 900, len(cases) - 1)
                if 0 <= i < len(cases)]
     chk.coverage = {
-        'evaluations': len(cases) + exh_count + len(inc_rows),
+        'evaluations': len(cases) + exh_count + len(inc_rows) + len(cons_pairs),
         'distinct_nontrivial': len(nontrivial) + exh_nontrivial,
         'rule': 'diffLines through parse_script/execute_script with include <diff.bare> served by the CLI fetcher; exhaustive pairs of '
                 f'line lists of length <= {maxlen} over {{a,b,c}} ({nlists}^2), all pairs <= 3 again explicitly (for the model), random '
@@ -360,7 +374,7 @@ def run(tier):
         'exhaustive_digest': exh_digest.hexdigest(),
         'distribution': dist, 'block_shapes_explicit_top': dict(sorted(shapes.items(), key=lambda kv: -kv[1])[:25]),
         'block_shapes_exhaustive_top': dict(sorted(exh_shapes.items(), key=lambda kv: -kv[1])[:25]),
-        'includes': inc_summary,
+        'includes': inc_summary, 'consumer_pairs': len(cons_pairs), 'consumer_failure_entries': n_cons_fail_entries,
         'correspondence_cases': corr_n,
         'samples': samples,
     }
